@@ -283,13 +283,13 @@ def case_solve(ctx, p):
         P = oracle.Rx(chi) @ oracle.Ry(wedge)
         if expected_count(P, g) is None:
             continue
-        # an omega difference moves the rotated vector by |d_omega| x (part of g perpendicular to the axis): for g almost
-        # along the axis omega is ill-determined, so the difference is weighted with that part (and never tighter than 1e-6)
-        axis = P @ np.array([0.0, 0.0, 1.0])
-        perp = float(np.linalg.norm(d - float(d @ axis) * axis))
+        # an omega difference moves the rotated vector by |d_omega| x (part of g perpendicular to z): for g almost
+        # along z omega is ill-determined, so the difference is weighted with that part (and never tighter than 1e-6)
+        # (the rotation acts on g first, about the z axis of the frame g is given in; the tilt comes afterwards)
+        perp = float(math.hypot(d[0], d[1]))
         # each solver is allowed 1e-6 sin(theta) on the position of the rotated vector (its own post-condition), so two of them
         # can be asked to agree to twice that and no better
-        wtol = 2e-6 / max(perp, 1e-3) + 1e-6
+        wtol = min(math.pi, 2e-6 / max(perp, 1e-12)) + 1e-6       # no floor on perp: next to the axis omega is simply not determined
         if (m, "wedge") in res:
             a = _as_set(*res[m, "general"])
             b = _as_set(*res[m, "wedge"])
